@@ -99,7 +99,8 @@ func newRemainderExprNode() ExprNode { return &remainderExprNode{} }
 
 func (re *remainderExprNode) Run(ctx context.Context, currField string, tagExpr *TagExpr) interface{} {
 	v1, _ := toFloat64(re.rightOperand.Run(ctx, currField, tagExpr), true)
-	if v1 == 0 {
+	// the operands are converted to int64: a divisor in (-1, 1) truncates to zero too
+	if v1 == 0 || int64(v1) == 0 {
 		return math.NaN()
 	}
 	v0, _ := toFloat64(re.leftOperand.Run(ctx, currField, tagExpr), true)
